@@ -137,6 +137,13 @@ def main():
         res = {"id": job["id"], "fns": {}}
         try:
             ch_plugin.OPAQUE[0] = bool(job.get("opaque", True))
+            lru_key, lru_patch = None, None
+            if job.get("real_lru_cache"):
+                # CrossHair normally bypasses functools.lru_cache (a cache keyed on symbolic arguments would realise them);
+                # harnesses whose arguments are concrete menu members may ask for the real cache, to see state hidden in it
+                from functools import _lru_cache_wrapper
+                lru_key = _lru_cache_wrapper.__call__
+                lru_patch = core._PATCH_REGISTRATIONS.pop(lru_key, None)
             mod = load(job["file"])
             for fname in job["fns"]:
                 res["fns"][fname] = analyse(getattr(mod, fname), job["timeout"],
@@ -144,6 +151,12 @@ def main():
                 # stop early: once main is refuted the covers are irrelevant
         except BaseException as e:  # noqa
             res["error"] = "".join(traceback.format_exception(type(e), e, e.__traceback__))[-3000:]
+        finally:
+            try:
+                if lru_patch is not None:
+                    core._PATCH_REGISTRATIONS[lru_key] = lru_patch
+            except NameError:
+                pass
         sys.stdout.write("@@RESULT " + json.dumps(res) + "\n")
         sys.stdout.flush()
 
